@@ -14,7 +14,8 @@ RULE = (
     "every data length n in 32..135 (quick) / 32..300 (thorough) x kind in {boxcar, gaussian, lorentzian} x bank (nbins_max in {4,8,16} x "
     "spacing in {1.5,2}) that fits: (a) every response convs[k,t] (all templates, all bins) == <z, m_k,t> in float64; (b) snr/peak_bin/"
     "best_temp == max/argmax of convs; (c) invariance under x -> a*x+b for 6 maps; (d) for lengths in a sub-grid, a noiseless boxcar of "
-    "every bank width at EVERY start bin 0..n-1 (wrapping) is recovered at its start bin with its width. Non-trivial = response sets at "
+    "every bank width at EVERY start bin 0..n-1 (wrapping) is recovered at its start bin with its width, and a noiseless gaussian / "
+    "lorentzian pulse of every bank width (built from the formula) at every third bin is recovered at its peak bin with its width. Non-trivial = response sets at "
     "lengths that are not FFT-good sizes, argmax cases whose best template is not the first, every affine map, every direct kernel call with "
     "an unsorted bank, and recovery cases whose pulse touches or wraps around the array edge"
 )
@@ -23,7 +24,7 @@ ASSUMPTIONS = [
     "tolerance 32*eps32*log2(n)*||z||_2 per response (float32 FFT rounding); exact ties of the maximum are excluded",
     "banks whose largest template does not fit the data (library raises ValueError) are out of scope and counted",
 ]
-REQUIRED_OUTCOMES = ["responses/ok", "responses/non_good_length", "argmax/ok", "affine/ok", "boxcar_recovery/ok"]
+REQUIRED_OUTCOMES = ["responses/ok", "responses/non_good_length", "argmax/ok", "affine/ok", "boxcar_recovery/ok", "peak_recovery/ok"]
 
 EPS32 = float(np.finfo(np.float32).eps)
 KINDS = ["boxcar", "gaussian", "lorentzian"]
@@ -227,4 +228,51 @@ def _recovery(shard, ctx, res, only):
                 res.outcome("boxcar_recovery/ok")
                 if p + w > n or p == 0:
                     res.nontrivial += 1
+    # peak-referenced templates: a noiseless gaussian / lorentzian pulse built from the formula (not from the library's
+    # generators) and centred at p must be reported with peak_bin == p and its own width
+    from astropy.stats import gaussian_fwhm_to_sigma
+
+    for kind in ("gaussian", "lorentzian"):
+        for nbmax, spacing in ((8, 2.0), (16, 2.0)):
+            npts = int(np.ceil(np.log(nbmax) / np.log(spacing))) + 1
+            widths = np.geomspace(1, nbmax, npts)
+            for w in widths[1:]:
+                for p in range(0, n, 3):
+                    if only is not None and [kind, nbmax, spacing, float(w), p] != only:
+                        continue
+                    if kind == "gaussian":
+                        sd = gaussian_fwhm_to_sigma * w
+                        size = int(np.ceil(3.5 * sd))
+                        xs = np.arange(-size, size + 1)
+                        prof = np.exp(-0.5 * xs**2 / sd**2)
+                    else:
+                        gam = w / 2
+                        size = int(np.ceil(3.5 * gam))
+                        xs = np.arange(-size, size + 1)
+                        prof = gam**2 / (xs**2 + gam**2)
+                    if prof.size > n:
+                        res.skip("bank_does_not_fit")
+                        continue
+                    res.evaluations += 1
+                    case = {"shard": shard, "inner": [kind, nbmax, spacing, float(w), p]}
+                    x = np.zeros(n)
+                    x[(p + xs) % n] = prof
+                    try:
+                        mf = MatchedFilter(x.astype(np.float32), loc_method="norm", scale_method="norm", temp_kind=kind, nbins_max=nbmax, spacing_factor=spacing)
+                    except ValueError as e:
+                        if "larger than the data" in str(e):
+                            res.skip("bank_does_not_fit")
+                            continue
+                        res.violation({"site": "MatchedFilter", "symptom": "raised ValueError"}, case, repr(e))
+                        continue
+                    except Exception as e:  # noqa: BLE001
+                        res.violation({"site": "MatchedFilter", "symptom": f"raised {type(e).__name__}"}, case, repr(e))
+                        continue
+                    if mf.peak_bin != p or abs(float(mf.best_temp.width) - float(w)) > 1e-6 * w:
+                        res.violation({"site": "MatchedFilter", "symptom": "noiseless peak-referenced pulse not recovered at its peak bin with its width", "kind": kind}, case,
+                                      f"n={n} {kind} width {w:.3f} centred at {p}: reported bin {mf.peak_bin} width {mf.best_temp.width}")
+                        continue
+                    res.outcome("peak_recovery/ok")
+                    if p - size < 0 or p + size >= n:
+                        res.nontrivial += 1
     res.sample({"shard": shard, "inner": [8, 1.5, 3, n - 1]}, cap=1)
